@@ -6,7 +6,9 @@ from pyvc.types import TAbs, TFn, TKey, TOpt, TReal
 REPO = Repo()
 
 Meta = rec_from_source(REPO, "dvc_data.hashfile.meta:Meta")
-HashInfo = rec_from_source(REPO, "dvc_data.hashfile.hash_info:HashInfo")
+# obj_name (eq=False, hash=False) is not modelled: no code under contract reads it, and dropping it makes
+# HashInfo its own canonical form, so sets of HashInfo need no projection (listed in extraction_drops)
+HashInfo = rec_from_source(REPO, "dvc_data.hashfile.hash_info:HashInfo", skip=("obj_name",))
 DataIndexEntry = rec_from_source(REPO, "dvc_data.index.index:DataIndexEntry", overrides={"key": TOpt(TKey)})
 
 AnyVal = TAbs("AnyVal")  # result of an opaque comparison-key callable
